@@ -31,10 +31,13 @@ class MalCompiler:
         self.current_file = None
 
     def compile(self, malfile: Optional[str] = None):
-        if not self.path:
+        if self.path is None:
             self.path = os.path.dirname(malfile)
+            malfile = os.path.basename(malfile)
 
-        self.current_file = os.path.basename(malfile)
+        # An included file is named relative to the directory of the root
+        # file; keep the directories of that name.
+        self.current_file = malfile
 
         input_stream = FileStream(
             os.path.join(self.path, self.current_file), encoding="utf-8"
